@@ -104,6 +104,9 @@ func (app *App) quoteString(raw string) string {
 // Scan stack if other methods match the request
 func (app *App) methodExist(c *DefaultCtx) bool {
 	var exists bool
+	// the other methods' routes are only probed, none of them is entered:
+	// their parameter values do not replace those of the route in progress
+	var probed [maxParams]string
 
 	methods := app.config.RequestMethods
 	for i := 0; i < len(methods); i++ {
@@ -131,7 +134,7 @@ func (app *App) methodExist(c *DefaultCtx) bool {
 				continue
 			}
 			// Check if it matches the request path
-			match := route.match(c.getDetectionPath(), c.Path(), c.getValues())
+			match := route.match(c.getDetectionPath(), c.Path(), &probed)
 			// No match, next route
 			if match {
 				// We matched
@@ -149,6 +152,8 @@ func (app *App) methodExist(c *DefaultCtx) bool {
 // Scan stack if other methods match the request
 func (app *App) methodExistCustom(c CustomCtx) bool {
 	var exists bool
+	// see methodExist: the probed routes keep their parameter values to themselves
+	var probed [maxParams]string
 	methods := app.config.RequestMethods
 	for i := 0; i < len(methods); i++ {
 		// Skip original method
@@ -175,7 +180,7 @@ func (app *App) methodExistCustom(c CustomCtx) bool {
 				continue
 			}
 			// Check if it matches the request path
-			match := route.match(c.getDetectionPath(), c.Path(), c.getValues())
+			match := route.match(c.getDetectionPath(), c.Path(), &probed)
 			// No match, next route
 			if match {
 				// We matched
